@@ -447,7 +447,7 @@ func (ex *Exchange[H]) request(
 		return nil, err
 	}
 
-	hdrs, err := processResponses[H](responses)
+	hdrs, err := safeProcessResponses[H](responses)
 	if err != nil {
 		return nil, err
 	}
@@ -459,6 +459,17 @@ func (ex *Exchange[H]) request(
 		}
 	}
 	return hdrs, nil
+}
+
+// safeProcessResponses is processResponses that turns a panic of the header's decoding or
+// validation, which a remote peer can trigger with a crafted response, into an error.
+func safeProcessResponses[H header.Header[H]](responses []*p2p_pb.HeaderResponse) (h []H, err error) {
+	defer func() {
+		if r := recover(); r != nil {
+			h, err = nil, fmt.Errorf("PANIC processing responses: %s", r)
+		}
+	}()
+	return processResponses[H](responses)
 }
 
 // shufflePeers changes the order of trusted peers.
